@@ -239,7 +239,9 @@ def make_judges(ctx):
             return
         for p in U.u2_frame_problems(ev, Fxp):
             ctx.violation('source_changed', p[1], ev, extra=p[2])
-    return [conv_judge, source_unchanged]
+    from . import c16
+    read_judge = c16.make_judges(ctx, conv_max_word=52)[2]      # C16's judge of get_val / call / astype(float): what is read is code * LSB
+    return [conv_judge, source_unchanged, read_judge]
 
 
 def floors(tier):
@@ -276,28 +278,48 @@ def _try(f):
         return None
 
 
-def all_routes(Fxp, mk_src, fd, r, o, routes=None):
-    """convert the source into format fd by every route (fresh source and destination for each)"""
+def all_routes(Fxp, mk_src, fd, r, o, routes=None, dst_history=False):
+    """convert the source into format fd by every route (fresh source and destination for each); the converted object is then read
+    (get_val / call / astype(float)): the value a user sees must be the converted code's value (judged by C16's conversion judge)"""
     s, w, nf = fd
     dt = R.dtype_fxp(s, w, nf)
 
     def dst(val=None):
+        if dst_history and val is None:
+            # a destination with a history: created from an integer at n_frac = 0 (integer value type), resized to the destination format afterwards
+            d = Fxp(0, s, w, 0, rounding=r, overflow=o)
+            d.resize(s, w, nf)
+            return d
+        if dst_history and isinstance(val, np.ndarray):
+            d = Fxp(np.zeros(val.shape, dtype=int), s, w, 0, rounding=r, overflow=o)
+            d.resize(s, w, nf)
+            return d
         return Fxp(val, s, w, nf, rounding=r, overflow=o)
+
+    def read(z):
+        if z is not None and hasattr(z, 'get_val'):
+            _try(lambda: z.get_val())
+            _try(lambda: z())
+            _try(lambda: z.astype(float))
+        return z
 
     def r_resize():
         x = mk_src()
         x.config.rounding, x.config.overflow = r, o
         x.resize(s, w, nf)
+        return x
 
     def r_resize_dtype():
         x = mk_src()
         x.config.rounding, x.config.overflow = r, o
         x.resize(dtype=dt)
+        return x
 
     def r_resize_nint():
         x = mk_src()
         x.config.rounding, x.config.overflow = r, o
         x.resize(s, n_frac=nf, n_int=w - nf - (1 if s else 0))
+        return x
 
     def r_setitem():
         x = mk_src()
@@ -312,12 +334,15 @@ def all_routes(Fxp, mk_src, fd, r, o, routes=None):
             d2[1] = x
             d3 = dst(np.zeros(shp))
             d3[0] = x[0]
+            read(d3)
+        return d
 
     def r_equal_index():
         x = mk_src()
         shp = np.asarray(x.val).shape
         d = dst(np.zeros((2,) + shp))
         d.equal(x, index=1)
+        return d
 
     table = {
         'resize': r_resize, 'resize_dtype': r_resize_dtype, 'resize_nint': r_resize_nint,
@@ -331,7 +356,7 @@ def all_routes(Fxp, mk_src, fd, r, o, routes=None):
         'setitem': r_setitem, 'equal_index': r_equal_index,
     }
     for name in (routes or table):
-        _try(table[name])
+        read(_try(table[name]))
 
 
 def run_case(case, ctx):
@@ -388,7 +413,20 @@ def run_case(case, ctx):
                 v = np.array(v.tolist())
                 return Fxp(v, fs[0], fs[1], fs[2])
             return Fxp(int(v), fs[0], fs[1], fs[2])
-        all_routes(Fxp, mk_src, fd, r, o)
+        all_routes(Fxp, mk_src, fd, r, o, dst_history=(i // 30) % 3 == 0 and fd[2] > 0)
+        if (i // 10) % 4 == 0 and fs[0] and 12 <= fs[1]:
+            # a lopsided array (one code of large negative magnitude next to small positive ones) moved up by so many fraction bits that only the negative
+            # element needs more than 63 bits
+            up = 64 - fs[1] + rng.randint(-1, 3)
+            nf2 = fs[2] + up
+            fd2 = (True, rng.randint(max(8, nf2 - 8), 52) if nf2 - 8 <= 52 else 52, nf2)
+            if -8 <= fd2[2] <= fd2[1] + 8:
+                lop = [lo, 1, 0, rng.randint(1, 7)]
+                def mk_lop():
+                    return Fxp(np.array(lop), fs[0], fs[1], fs[2], raw=True)
+                all_routes(Fxp, mk_lop, fd2, r, o, routes=('resize', 'ctor_sizes', 'like', 'equal', 'set_val', 'setitem'))
+                lop2 = [hi, -1, 0, -rng.randint(1, 7)]
+                all_routes(Fxp, lambda: Fxp(np.array(lop2), fs[0], fs[1], fs[2], raw=True), fd2, r, o, routes=('resize', 'like', 'equal'))
         if i % 4 == 0 and fs[1] <= 40:
             # a source filled from a list of (unsigned) NumPy scalars under wrap: its codes can be negative, its value dtype unsigned
             m = 1 << fs[1]
